@@ -62,6 +62,16 @@ type c14Case struct {
 	Pass     []string  `json:"passthrough,omitempty"`
 	Text     string    `json:"text"`
 	Excl     []string  `json:"excluded,omitempty"` // exclusions applied by the generator (finding ids)
+	// other views of the same project (different listed / exclude / passthrough sets): the view under
+	// test must not be influenced by them
+	Decoys []c14Decoy `json:"decoys,omitempty"`
+}
+
+type c14Decoy struct {
+	Name     string   `json:"name"`
+	Listed   []string `json:"listed"`
+	Excludes []string `json:"excludes,omitempty"`
+	Pass     []string `json:"passthrough,omitempty"`
 }
 
 // ---------- rendering ----------
@@ -143,6 +153,26 @@ func c14Render(c *c14Case) string {
 	sb.WriteString(hdr + ":\n")
 	for _, l := range c.Listed {
 		sb.WriteString("        " + l + "\n")
+	}
+	for _, d := range c.Decoys {
+		var attrs []string
+		if len(d.Excludes) > 0 {
+			attrs = append(attrs, "exclude="+c14Quote(d.Excludes))
+		}
+		if len(d.Pass) > 0 {
+			attrs = append(attrs, "passthrough="+c14Quote(d.Pass))
+		}
+		hdr := "    " + d.Name
+		if len(attrs) > 0 {
+			hdr += " [" + strings.Join(attrs, ", ") + "]"
+		}
+		sb.WriteString(hdr + ":\n")
+		for _, l := range d.Listed {
+			sb.WriteString("        " + l + "\n")
+		}
+		if len(d.Listed) == 0 {
+			sb.WriteString("        ...\n")
+		}
 	}
 	return sb.String()
 }
@@ -363,6 +393,24 @@ func genC14(t *rapid.T) c14Case {
 		c.Excl = append(c.Excl, c14FindCycle)
 	}
 	c.Apps = g.apps
+	// 0-2 further views in the same project
+	nd := rapid.IntRange(0, 2).Draw(t, "ndecoys")
+	for k := 0; k < nd; k++ {
+		d := c14Decoy{Name: pick(t, []string{"aa_other", "zz_other", "mid_other", "view0", "x_view"}, "decoyname") + fmt.Sprint(k)}
+		for _, a := range g.apps {
+			switch rapid.IntRange(0, 5).Draw(t, "decoyrole") {
+			case 0, 1:
+				d.Listed = append(d.Listed, a.Name)
+			case 2:
+				d.Excludes = append(d.Excludes, a.Name)
+			case 3:
+				if !knownActive(c14FindCycle) {
+					d.Pass = append(d.Pass, a.Name)
+				}
+			}
+		}
+		c.Decoys = append(c.Decoys, d)
+	}
 	c.Text = c14Render(&c)
 	return c
 }
@@ -547,6 +595,15 @@ func c14Pairs(ps map[c14Pair]bool) string {
 }
 
 func checkC14(x *X, c c14Case) error {
+	if len(c.Decoys) > 0 {
+		x.Class("project_has_other_views")
+		for _, d := range c.Decoys {
+			if len(d.Excludes) > 0 {
+				x.Class("other_view_with_excludes")
+				break
+			}
+		}
+	}
 	for _, e := range c.Excl {
 		x.Exclude(e)
 	}
@@ -800,7 +857,7 @@ func checkC14(x *X, c c14Case) error {
 }
 
 var c14Ints = Define("C14", "arrows",
-	"Random call multigraphs: 2-8 applications (two name-spaced groups for the clustered view, 1 in 8 ~human), 1-2 endpoints each (thorough tier: 1-3, longer bodies; 1 in 10 ~hidden, 1 in 6 empty), statements action/call/return/if+else/while/until/loop/for/alt/for each/group/one of nested to depth 2 with calls to existing endpoints of any application; one project view that lists (30%), passes through (40%) or excludes (20%) each application (at least one listed; listed and excluded disjoint), so pass-through chains and cycles arise. Oracle over the plain, clustered and endpoint-analysis views read back through their alias tables: every arrow a->b has a call statement from a to b and touches neither an excluded application nor the project; every call from a listed non-human application to a different, non-excluded, non-human application's non-hidden endpoint is drawn; no arrow twice; endpoint-analysis arrows are matched against call statements endpoint by endpoint; the plain view equals the builder's dependency list, whose entries must all be call statements of the model; generation must return (worker subprocess). Non-trivial: >=3 applications on the diagram and a pass-through application that contributes an onward call or an exclude that removes a call to/from a listed application; distinct by text.",
+	"Random call multigraphs: 2-8 applications (two name-spaced groups for the clustered view, 1 in 8 ~human), 1-2 endpoints each (thorough tier: 1-3, longer bodies; 1 in 10 ~hidden, 1 in 6 empty), statements action/call/return/if+else/while/until/loop/for/alt/for each/group/one of nested to depth 2 with calls to existing endpoints of any application; one project view under test (plus 0-2 other views of the same project with their own listed / exclude / passthrough sets, which must not influence it) that lists (30%), passes through (40%) or excludes (20%) each application (at least one listed; listed and excluded disjoint), so pass-through chains and cycles arise. Oracle over the plain, clustered and endpoint-analysis views read back through their alias tables: every arrow a->b has a call statement from a to b and touches neither an excluded application nor the project; every call from a listed non-human application to a different, non-excluded, non-human application's non-hidden endpoint is drawn; no arrow twice; endpoint-analysis arrows are matched against call statements endpoint by endpoint; the plain view equals the builder's dependency list, whose entries must all be call statements of the model; generation must return (worker subprocess). Non-trivial: >=3 applications on the diagram and a pass-through application that contributes an onward call or an exclude that removes a call to/from a listed application; distinct by text.",
 	genC14, checkC14)
 
 func TestC14(t *testing.T) {
